@@ -2150,15 +2150,26 @@ class Tag(PageElement):
         calling this method afterwards can make pretty-printed output
         look more natural.
         """
+        # Smooth this tag and every tag beneath it. The tags are
+        # collected up front, because smoothing changes the tree, and
+        # visited in a loop rather than by having each tag call
+        # smooth() on its children, so that the call depth doesn't
+        # grow with the nesting depth.
+        tags: List[Tag] = [self]
+        tags.extend(d for d in self.descendants if isinstance(d, Tag))
+        for tag in tags:
+            tag._smooth_contents()
+
+    def _smooth_contents(self) -> None:
+        """Consolidate consecutive strings among the direct children
+        of this `Tag`.
+        """
         # Mark the first position of every pair of children that need
         # to be consolidated.  Do this rather than making a copy of
         # self.contents, since in most cases very few strings will be
         # affected.
         marked = []
         for i, a in enumerate(self.contents):
-            if isinstance(a, Tag):
-                # Recursively smooth children.
-                a.smooth()
             if i == len(self.contents) - 1:
                 # This is the last item in .contents, and it's not a
                 # tag. There's no chance it needs any work.
